@@ -533,6 +533,12 @@ CONFIG = {
     'proximal_gradient': dict(
         file=N + 'proximal_gradient_solvers.py', scalars=['gamma', 'gamma_in', 'niter', 'lam', 'lam_in', 'lam_k'],
         vectors=['x'], operators=['f', 'g'], flags={'callback is not None': True}),
+    'dca': dict(
+        file=N + 'difference_convex.py', scalars=['niter'], vectors=['x'], operators=['f', 'g'],
+        flags={'callback is not None': True}),
+    'prox_dca': dict(
+        file=N + 'difference_convex.py', scalars=['niter', 'gamma'], vectors=['x'], operators=['f', 'g'],
+        flags={'callback is not None': True}),
     'steepest_descent': dict(
         file='odl/solvers/smooth/gradient.py', scalars=['maxiter', 'tol', 'step', 'dir_derivative', 'line_search'],
         vectors=['x'], operators=['f'],
